@@ -1,9 +1,107 @@
 import WM.Proto
+import WM.Model.Collect
 namespace WM.Drv.C05
-open WM.Proto
+open WM.Proto WM.Proto.SExp WM.Rank WM.Collect
 
-/-- Protocol handler of family `c05` (requests arrive without the family token). -/
+/-! Protocol of family `c05`.
+
+* `c05 top (limit replace usequality useFinal) (finaltable) (segs) (sched)` — `collectTop` with its trace;
+  * `finaltable` = `((doc score) …)`: the `final()` hook as a table (identity elsewhere);
+  * `segs` = `((off supports ((doc score newBlock) …)) …)`; `sched` = `(((mask…) supports skip) …)`;
+  * reply `ok ((doc score) …) total replaced skipped (thresholds, oldest first) may_have_dropped count` or `err <name>`.
+* `c05 unl (replace useFinal reverse) (finaltable) (segs) (sched)` — `collectUnlimited`.
+* `c05 stack (limit replace usequality useFinal) (finaltable) allow restrict collapse (segs) (sched)` —
+  `collectStack`: `allow`/`restrict` = `none` or `(docs…)`, `collapse` = `none` or
+  `(climit ((doc ckey|none) …) none|((doc (key…)) …))`; reply `ok hits total filtered ((ckey count)…) may_have_dropped`.
+* `c05 spec k ((doc score) …)` — the specification `topK k` (k = `none`: the whole ranking).
+-/
+
+def posting? (e : SExp) : Option Posting := do
+  match e with
+  | .list [d, s, b] => some ⟨← d.nat?, ← s.rat?, ← b.bool?⟩
+  | _ => none
+
+def seg? (e : SExp) : Option Seg := do
+  match e with
+  | .list [o, s, ps] => some ⟨← o.nat?, ← s.bool?, ← listOf? posting? ps⟩
+  | _ => none
+
+def step? (e : SExp) : Option Step := do
+  match e with
+  | .list [m, s, k] => some ⟨← listOf? bool? m, ← s.bool?, ← k.nat?⟩
+  | _ => none
+
+def hit? (e : SExp) : Option Hit := do
+  match e with
+  | .list [d, s] => some ⟨← d.nat?, ← s.rat?⟩
+  | _ => none
+
+def finalOf (tbl : List Hit) (g : Nat) (s : Rat) : Rat :=
+  match tbl.find? (fun h => h.doc == g) with
+  | some h => h.score
+  | none => s
+
+def showHit (h : Hit) : String := s!"({h.doc} {showRat h.score})"
+def showHits (hs : List Hit) : String := showList showHit hs
+def showErr : Err → String
+  | .indexError => "IndexError"
+  | .keyError => "KeyError"
+  | .valueError => "ValueError"
+
 def handle : List SExp → String
+  | [.atom "top", .list [l, r, uq, uf], ft, sg, sc] =>
+    match l.nat?, r.nat?, uq.bool?, uf.bool?, listOf? hit? ft, listOf? seg? sg, listOf? step? sc with
+    | some l, some r, some uq, some uf, some ft, some sg, some sc =>
+      let cfg : Cfg := { limit := l, replace := r, usequality := uq, useFinal := uf }
+      match runSegs cfg (topConsume cfg (finalOf ft)) (fun st => st.minscore) sg sc {} {} with
+      | .error e => s!"err {showErr e}"
+      | .ok (st, _, tr) =>
+        let nAll := (sg.map (fun s => s.postings.length)).foldl (· + ·) 0
+        s!"ok {showHits st.results} {st.total} {tr.replaced} {tr.skipped} {showList showRat tr.thresholds.reverse} {showBool tr.mayHaveDropped} {topCount cfg st tr nAll}"
+    | _, _, _, _, _, _, _ => "bad-op"
+  | [.atom "stack", .list [l, r, uq, uf], ft, al, re, co, sg, sc] =>
+    -- co = none | (climit ((doc ckey|none) …) none|((doc (key…)) …))
+    let tbl? : SExp → Option (List (Nat × Option Int)) := listOf? fun e =>
+      match e with
+      | .list [d, c] => do some (← d.nat?, ← opt? int? c)
+      | _ => none
+    let ord? : SExp → Option (List (Nat × Key)) := listOf? fun e =>
+      match e with
+      | .list [d, k] => do some (← d.nat?, ← listOf? rat? k)
+      | _ => none
+    let coll? : Option (Option ((Nat → Option Int) × Nat × Option (Nat → Key))) :=
+      match co with
+      | .atom "none" => some none
+      | .list [cl, ck, oo] => do
+        let cl ← cl.nat?
+        let ck ← tbl? ck
+        let oo ← opt? ord? oo
+        let ckey := fun g => match ck.find? (fun p => p.1 == g) with | some p => p.2 | none => none
+        let order := oo.map fun t => fun g => match t.find? (fun p => p.1 == g) with | some p => p.2 | none => []
+        some (some (ckey, cl, order))
+      | _ => none
+    match l.nat?, r.nat?, uq.bool?, uf.bool?, listOf? hit? ft, opt? natList? al, opt? natList? re, coll?,
+          listOf? seg? sg, listOf? step? sc with
+    | some l, some r, some uq, some uf, some ft, some al, some re, some co, some sg, some sc =>
+      let cfg : Cfg := { limit := l, replace := r, usequality := uq, useFinal := uf }
+      match collectStack cfg (finalOf ft) { allow := al, restrict := re, collapse := co } sg sc with
+      | .error e => s!"err {showErr e}"
+      | .ok (hs, st, tr) =>
+        let cnts := showList (fun (p : Int × Nat) => s!"({p.1} {p.2})") st.counts
+        s!"ok {showHits hs} {st.top.total} {st.filtered} {cnts} {showBool tr.mayHaveDropped}"
+    | _, _, _, _, _, _, _, _, _, _ => "bad-op"
+  | [.atom "unl", .list [r, uf, rev], ft, sg, sc] =>
+    match r.nat?, uf.bool?, rev.bool?, listOf? hit? ft, listOf? seg? sg, listOf? step? sc with
+    | some r, some uf, some rev, some ft, some sg, some sc =>
+      match collectUnlimited r uf (finalOf ft) rev sg sc with
+      | .error e => s!"err {showErr e}"
+      | .ok hs => s!"ok {showHits hs}"
+    | _, _, _, _, _, _ => "bad-op"
+  | [.atom "spec", k, hs] =>
+    match opt? nat? k, listOf? hit? hs with
+    | some (some k), some hs => showHits (topK k hs)
+    | some none, some hs => showHits (rankAll hs)
+    | _, _ => "bad-op"
   | _ => "bad-op"
 
 end WM.Drv.C05
